@@ -52,12 +52,16 @@ def generate(rng, tier):
                 ops.append(["reg_comp", x, c])
             else:
                 h = host.pop(c)
-                for a in list(replicas[c]):
-                    ops.append(["unreg_replica", a, c])
-                replicas[c].clear()
+                if rng.random() < 0.5:
+                    for a in list(replicas[c]):
+                        ops.append(["unreg_replica", a, c])
+                    replicas[c].clear()
+                # else: the replicas outlive the registration of their computation, as they do
+                # between the departure of its host and the end of the repair
                 ops.append(["unreg_comp", h, c])
         elif r < 0.36:
-            cands = [c for c in host if host[c] != x]
+            cands = [c for c in host if host[c] != x] + \
+                [c for c in COMPS if c not in host and x in replicas[c]]
             if not cands:
                 continue
             c = pick_comp(cands)
@@ -133,7 +137,7 @@ def consistent(case):
                 return False
             host[op[2]] = op[1]
         elif k == "unreg_comp":
-            if host.get(op[2]) != op[1] or replicas[op[2]]:
+            if host.get(op[2]) != op[1]:
                 return False
             del host[op[2]]
         elif k == "reg_replica":
@@ -293,6 +297,19 @@ def execute(case, tape):
             return True
         return len(sub_periods(case, x, kind, item)) > 1
 
+    def outlived(item):
+        """some replica of `item` was still published when `item` itself was un-registered (as
+        between the departure of its host and the end of a repair)"""
+        reps = set()
+        for op in case["ops"]:
+            if op[0] == "reg_replica" and op[2] == item:
+                reps.add(op[1])
+            elif op[0] == "unreg_replica" and op[2] == item:
+                reps.discard(op[1])
+            elif op[0] == "unreg_comp" and op[2] == item and reps:
+                return True
+        return False
+
     def self_hosted(x, item):
         """x itself un-registered the computation AFTER the subscription that is still active
         (its own un-registration is what cancels the subscription, see KF-C20-1)."""
@@ -308,6 +325,16 @@ def execute(case, tape):
     for kind, detail, x, item in problems:
         f = dict(kind=kind, subscriber_hosted_it=kind != "agent" and self_hosted(x, item),
                  stale_local_registration=stale_possible(x, kind, item))
+        if kind == "replica":
+            f["replicas_outlived_registration"] = outlived(item)
+            # is it the view or the directory that departs from the history's own model?
+            model = set()
+            for op in case["ops"]:
+                if op[0] == "reg_replica" and op[2] == item:
+                    model.add(op[1])
+                elif op[0] == "unreg_replica" and op[2] == item:
+                    model.discard(op[1])
+            f["directory_is_right"] = sorted(model) == _final.get((x, kind, item))
         if tuple(sorted(f.items())) in seen:
             continue
         seen.add(tuple(sorted(f.items())))
